@@ -964,6 +964,56 @@ pub fn run_c06(rep: &mut Report, driver: &str, workers: usize, thorough: bool, s
     let rule_texts: Vec<TextCase> = texts.iter().filter(|t| t.tag != "toks30" && t.tag != "toks9" && t.tag != "long-reject").step_by(3).map(|t| TextCase { text: format!("//n\n@k: {}; {}", t.text, t.text), tag: "as-rule" }).collect();
     let run = run_texts(texts, false, driver, workers);
     judge_texts("C06", "expr-texts", "every string of length <= 3 (thorough 4) over the 24-character literal alphabet `ifd0189xboe.+-\"\\/nu{}_a ` and of length <= 2 (3) over 37 punctuation / whitespace / non-ASCII characters; every sequence of <= 3 (4) of 30 token representatives, <= 4 (5) of 17 and <= 5 (6) of the 9 compound-literal token classes; string literals mixing 1- to 4-byte characters with 16 valid / invalid escape forms at every distance 0..14 from either end; character-level mutations (delete / duplicate / insert junk / swap) of grammar-generated texts; out-of-range numerals in every numeric position, every escape form, control and non-ASCII characters; the precedence texts; texts that begin with 2- / 3- / 4-byte characters followed by an early syntax error; ill-formed texts carrying a run of 2- / 3- / 4-byte characters that crosses every power-of-two byte offset up to 16 KiB (64 KiB thorough) at every alignment — through Expr::parse under catch_unwind", false, &run, "panic", rep);
+    // parsing from odd places: inside the destructor of a thread-local of a thread that has parsed before and is exiting,
+    // on a thread with a small stack, from many threads at once — "any text" includes any caller
+    {
+        let mut sr = StreamReport::new("parse-from-anywhere", "Expr::parse / Rule::parse called from the destructor of a thread-local value while the thread exits (after the thread has parsed before, and without), on 64 threads started at once, on a 256 KiB stack", true);
+        struct ParseOnDrop(&'static str, std::sync::Arc<std::sync::Mutex<Vec<String>>>);
+        impl Drop for ParseOnDrop {
+            fn drop(&mut self) {
+                let a = impl_parse(self.0);
+                let b = impl_parse_rule(&format!("// n\n{}", self.0));
+                self.1.lock().unwrap().push(format!("{} | {}", a, b.split('\t').next().unwrap_or("")));
+            }
+        }
+        thread_local! {
+            static GUARD: std::cell::RefCell<Option<ParseOnDrop>> = const { std::cell::RefCell::new(None) };
+        }
+        let texts: [&'static str; 4] = ["i1 + i2", "a.b.0 contains \"x\"", "i1 +", "\"\\q\""];
+        for parse_first in [true, false] {
+            for t in texts {
+                let log = std::sync::Arc::new(std::sync::Mutex::new(vec![]));
+                let log2 = log.clone();
+                let expected = format!("{} | {}", impl_parse(t), impl_parse_rule(&format!("// n\n{}", t)).split('\t').next().unwrap_or("").to_string());
+                let h = std::thread::Builder::new().stack_size(256 * 1024).spawn(move || {
+                    // the guard is registered BEFORE the thread's first parse, so it is destroyed AFTER whatever the parser keeps per thread
+                    GUARD.with(|g| *g.borrow_mut() = Some(ParseOnDrop(t, log2)));
+                    if parse_first {
+                        let _ = impl_parse("i1");
+                        let _ = impl_parse_rule("// n\ni1");
+                    }
+                });
+                let joined = h.map(|h| h.join());
+                sr.count(&format!("tls-drop {} {}", parse_first, t), true);
+                let got = log.lock().unwrap().first().cloned().unwrap_or_else(|| "nothing-recorded (the destructor did not complete)".to_string());
+                if !matches!(joined, Ok(Ok(()))) || got != expected {
+                    rep.add_finding(Finding { kind: "impl-violates-property".into(), stream: "parse-from-anywhere".into(), case: format!("tls-drop\t{}\t{}", parse_first, hex(t)), human: format!("parsing {:?} inside a thread-local destructor while the thread exits (the thread had parsed before: {})", t, parse_first), impl_out: got, model_out: expected, predicate: "parsing any text returns a tree or a parse error, never a panic — wherever it is called from".into(), signature: "C06 panic tls-destructor".into() });
+                }
+            }
+        }
+        // 64 threads at once, each parsing a few texts (first use of whatever the parser shares)
+        let barrier = std::sync::Arc::new(std::sync::Barrier::new(64));
+        let expected: Vec<String> = texts.iter().map(|t| impl_parse(t)).collect();
+        let hs: Vec<_> = (0..64).map(|_| { let b = barrier.clone(); std::thread::spawn(move || { b.wait(); texts.iter().map(|t| impl_parse(t)).collect::<Vec<_>>() }) }).collect();
+        for h in hs {
+            sr.count("threads", true);
+            match h.join() {
+                Ok(got) if got == expected => {}
+                other => rep.add_finding(Finding { kind: "impl-violates-property".into(), stream: "parse-from-anywhere".into(), case: "threads-at-once".into(), human: "64 threads parsing at once".into(), impl_out: format!("{:?}", other.ok()).chars().take(300).collect(), model_out: format!("{:?}", expected).chars().take(300).collect(), predicate: "parsing any text returns a tree or a parse error, never a panic — wherever it is called from".into(), signature: "C06 panic threads-at-once".into() }),
+            }
+        }
+        rep.streams.push(sr);
+    }
     let mut more = rule_stream(&mut rng, false);
     more.extend(rule_texts);
     more.extend(prefixed_stream());
